@@ -168,7 +168,7 @@ def rule_resolver(cx, rid):
     from .. import dl
     pm = mod(PARSER)
     fn = pm.func("_extract_call_argument")
-    r = cx.rule(rid, "_extract_call_argument(text, keyword=k) returns the value of the keyword spelled exactly k (never of one that merely starts or ends with k) and None otherwise; (text, position=i) returns the i-th positional argument or None", floor=800, exhaustive=True)
+    r = cx.rule(rid, "_extract_call_argument(text, keyword=k) returns the value of the keyword spelled exactly k (never of one that merely starts or ends with k) and None otherwise; (text, position=i) returns the i-th positional argument or None", floor=700, exhaustive=True)
     kws = ("p", "p_x", "px", "x_p", "q")
     n_bad = 0
     for npos in range(0, 3):
